@@ -31,9 +31,15 @@ TIMEOUT_S = 5
 LEXEME = {"int": "1", "decimal": "1.5", "string": "'s'", "boolean": "TRUE", "pattern": "//a//"}
 VARIANTS = {
     "int": ["0", "007", "0x1F", "0xff", "0b101", "1_000", "0x_f", "9007199254740993", "1_", "1__0",
+            # what the host's int() tolerates but the language does not: signs, blanks, underscores, prefixes
+            "0x-1", "0x+f", "0b-1", "0b+1", "0x 1", "0x1_", "0b1_", "0b_1", "0x0x1", "0b0b1", "0x", "0b", "0b2", "0xg",
+            "1e5", "0x1.8", "0b1.1", "١٢", "0x١",
             "9" * 5000, "0x" + "f" * 5000, "0b" + "1" * 20000],
-    "decimal": ["0.5", "1_0.2_5", "1.", "1_.5", "1._5", "1." + "0" * 400, "9" * 400 + ".5"],
-    "string": ["''", '"a\\"b"', "'x\\ny'", '"\\x41"', "'{x}'", "'l1\nl2'"],
+    "decimal": ["0.5", "1_0.2_5", "1.", "1_.5", "1._5", "1.5e3", "1.e3", "1.5_", "1.-5", "1.+5", "1.٥", "1.5.5", "1.inf", "1.nan", "1." + "0" * 400, "9" * 400 + ".5"],
+    "string": ["''", '"a\\"b"', "'x\\ny'", '"\\x41"', "'{x}'", "'l1\nl2'",
+               # \x escapes: exactly two hex digits; int() would also take signs, blanks and underscores
+               '"\\x-1"', "'\\x-f'", '"\\x+1"', "'\\x 1'", '"\\x_1"', "'\\x1_'", '"\\x1"', "'\\x'", '"\\xg1"', "'\\x1g'",
+               '"ab\\x-7cd"', "'\\x0x'", '"\\x١١"', "'\\u0041'", '"\\q"', "'\\'", '"\\x4'],
     "boolean": ["FALSE"],
     "pattern": ["//[//", "//(//", "//*//", "//a|b//", "///", "//a{99999999999999999999}//",
                 "//" + "(" * 120 + "a" + ")" * 120 + "//", "//(?P<n>a)(?P<n>b)//", "//\\//"],
@@ -241,6 +247,19 @@ FRAMES = ["{A} ; {B}", "( {A} )", "[ {A} , {B} ]", "f ( {A} , {B} )", "do {A} ; 
           "return ; {A}", "{A} ; return ;", "fn ( ) return ;", "do {A} ; return ; end"]
 
 
+# every binding construct with a protected (`checkerlang_`) name: the guards in the node constructors run at
+# parse time (C01 anchors "system-variable guard in assignment node constructors")
+_SYS = ["checkerlang_x", "checkerlang_secure_mode", "checkerlang_"]
+GUARD_FORMS = ["{S} = 1", "[ {S} ] = [ 1 ]", "[ a , {S} ] = [ 1 , 2 ]", "[ {S} , b ] = << 1 , 2 >>", "def {S} = 1",
+               "def [ {S} ] = [ 1 ]", "def [ a , {S} ] = [ 1 , 2 ]", "{S} += 1", "{S} -= 1", "{S} *= 2", "{S} /= 2", "{S} %= 2",
+               "for {S} in [ 1 ] do 1 end", "for [ a , {S} ] in [ [ 1 , 2 ] ] do 1 end", "fn ( {S} ) 1", "fn ( a , {S} = 1 ) 1",
+               "def f ( {S} ) 1", "[ 1 for {S} in [ 1 ] ]", "<< 1 for a in [ 1 ] for {S} in [ 2 ] >>",
+               "<<< a => 1 for {S} in [ 1 ] >>>", "x -> {S} = 1", "x [ {S} ] = 1", "<* {S} = 1 *>", "<* {S} ( a ) 1 *>",
+               "require x as {S}", "require x import [ a as {S} ]", "def class {S} do end", "f ( {S} = 1 )",
+               "do [ {S} , b ] = [ 1 , 2 ] ; end", "fn ( ) [ a , [ {S} ] ] = 1", "{S}", "{S} ( )", "def f ( ) do {S} = 1 ; end"]
+GUARD_TEXTS = sorted({f.replace("{S}", sv) for f in GUARD_FORMS for sv in _SYS})
+
+
 def compose(rng, fragments, n):
     """longer programs: short accepted programs plugged into every construct"""
     out = set()
@@ -338,8 +357,22 @@ def run(run):
         for p in range(len(toks)):
             comp.add(" ".join(toks[:p] + toks[p + 1:]))
             comp.add(" ".join(toks[:p] + [tok_text(rng.choice(sigma_t))] + toks[p + 1:]))
+    # lexeme variants inside the composed programs too (the frames bring constructs the short accepted
+    # programs do not reach: destructuring targets, parameters, members, import lists)
+    cls_of = {"1": "int", "1.5": "decimal", "'s'": "string", "TRUE": "boolean", "//a//": "pattern",
+              "x": "identifier:x", "y": "identifier:x", "z": "identifier:x", "a": "identifier:x", "f": "identifier:x"}
+    nvar = 0
+    for text in sorted(comp)[:: max(1, len(comp) // (400 if quick else 4000))]:
+        toks = text.split(" ")
+        for p, t in enumerate(toks):
+            for v in VARIANTS.get(cls_of.get(t, ""), []):
+                if len(v) <= 40:
+                    comp.add(" ".join(toks[:p] + [v] + toks[p + 1:]))
+                    nvar += 1
+    run.cov["composed_lexeme_variants"] = nvar
     run.cov["composed_programs"] = len(comp)
     vtexts |= comp
+    vtexts |= set(GUARD_TEXTS)
     vtexts -= set(by_text)
     for text, res in classify_all(sorted(vtexts)):
         judge(run, text, res, "edit-or-lexeme-variant")
